@@ -71,6 +71,7 @@ type (
 		mkdirMutexMap        map[string]*sync.Mutex
 		executionHashes      map[string]context.Context
 		executionHashesMutex sync.Mutex
+		executionWaits       map[string]map[string]int // execution -> executions it waits for
 		watchedDirs          *xsync.MapOf[string, bool]
 	}
 	TempDir struct {
